@@ -531,7 +531,7 @@ def check_real(vendor, rules, extra_flags, old, new, report):
     dev = env.device(vendor)
     fmt = env.formatter(vendor)
     case = {"part": "R", "vendor": vendor, "rb_text": text, "old": old, "new": new}
-    diff, pt = api._diff_and_patch(dev, env.to_odict(old), env.to_odict(new), None, None, False, rb=rbk)
+    diff, pt = env.diff_and_patch(dev, env.to_odict(old), env.to_odict(new), None, None, False, rb=rbk)
     shown = text_lines(fmt.patch(pt), fmt._indent)
     paths = fmt.cmd_paths(pt)
     sent = [(len(p) - 1, p[-1]) for p in paths.keys()]
@@ -585,7 +585,7 @@ def check_corpus(sample, report):
     dev = types.SimpleNamespace(hw=hw, hostname="d", fqdn="d")
     vendor = hw.vendor
     case = {"part": "K", "sample": sample["name"]}
-    diff, pt = api._diff_and_patch(dev, env.to_odict(sample["old"]), env.to_odict(sample["new"]), None, None, False)
+    diff, pt = env.diff_and_patch(dev, env.to_odict(sample["old"]), env.to_odict(sample["new"]), None, None, False)
     fmt = env.vendor_obj(vendor).make_formatter()
     paths = fmt.cmd_paths(pt)
     if vendor in FLAT_VENDORS or vendor == "routeros":
@@ -651,7 +651,7 @@ def check_job(sample, acl_safe, dont_commit, report):
     except Exception as e:  # noqa
         # the pipeline must fail the same way
         try:
-            api._diff_and_patch(dev, *((b, a) if acl_safe else (a, b)), acl, None, False, do_commit=not dont_commit)
+            env.diff_and_patch(dev, *((b, a) if acl_safe else (a, b)), acl, None, False, do_commit=not dont_commit)
         except Exception as e2:  # noqa
             if type(e2) is type(e):
                 return 0
@@ -659,7 +659,7 @@ def check_job(sample, acl_safe, dont_commit, report):
         return 0
     old, new = (env.to_odict(sample["new"]), env.to_odict(sample["old"])) if acl_safe else (env.to_odict(sample["old"]), env.to_odict(sample["new"]))
     try:
-        diff, pt = api._diff_and_patch(dev, old, new, acl, None, False, do_commit=not dont_commit)
+        diff, pt = env.diff_and_patch(dev, old, new, acl, None, False, do_commit=not dont_commit)
     except Exception as e:  # noqa
         report({"kind": "job-succeeds-where-pipeline-raises", "exc": type(e).__name__, "acl_safe": acl_safe}, case, repr(e)[:300])
         return 0
@@ -979,7 +979,7 @@ def replay(case):
         rbk, _ = compile_rb([Rule("a")], v)
         rbk = dict(rbk, patching=compile_patching_text(case["rb_text"], v))
         fmt = env.formatter(v)
-        diff, pt = api._diff_and_patch(env.device(v), env.to_odict(case["old"]), env.to_odict(case["new"]), None, None, False, rb=rbk)
+        diff, pt = env.diff_and_patch(env.device(v), env.to_odict(case["old"]), env.to_odict(case["new"]), None, None, False, rb=rbk)
         shown = text_lines(fmt.patch(pt), fmt._indent)
         sent = [(len(p) - 1, p[-1]) for p in fmt.cmd_paths(pt).keys()]
         if shown != sent:
